@@ -288,6 +288,115 @@ Definition schema_GetPictureIq :=
          (K1 (leaf "picture" [A "type" (CEqC (s "preview") (s "preview") (s "image")) EAlways ShReq
                                 (DEnum [s "image"; s "preview"])])).
 
+(* ================================================================== messages *)
+(* MessageProtocolEntity + MessageMetaAttributes, as the code is.  Two documented forms:
+   incoming (from, t, offline, [notify], [retry], [participant]) and outgoing (to, [participant]).
+     t       int(t) ... `timestamp or now()` ... str(t): lossless on a positive timestamp
+     offline offline in ("1", True) ... always written for an incoming message: lossless only when
+             the stanza carries it (ShReq); the wide variant below has it optional (open finding)
+     retry   int(retry) if retry else None ... written when truthy: lossless on a positive count *)
+Definition pos n c e sh := A n c e sh DDecPos.
+Definition msg_in_attrs ty offl retry :=
+  [ty; req "id"; optf "participant"; req "from"; pos "t" CIntClock EAlways ShReq; offl;
+   optf "notify"; retry].
+Definition offline_req := A "offline" b10 EAlways ShReq d01.
+Definition offline_wide := A "offline" b10 EAlways ShOpt d01.
+Definition retry_pos := pos "retry" CIntOpt EIfTruthy ShOpt.
+Definition retry_wide := A "retry" CIntOpt EIfTruthy ShOpt DDec.
+Definition msg_out_attrs ty := [ty; req "id"; optf "participant"; req "to"].
+Definition ty_any := req "type".
+Definition ty_text := enum "type" ["text"].
+Definition ty_media := enum "type" ["media"].
+Definition ty_both := enum "type" ["text"; "media"].
+
+Definition msg_in ty ks := N1 "message" (msg_in_attrs ty offline_req retry_pos) DNone ks.
+Definition msg_in_offline_wide ty ks := N1 "message" (msg_in_attrs ty offline_wide retry_pos) DNone ks.
+Definition msg_in_retry_wide ty ks := N1 "message" (msg_in_attrs ty offline_req retry_wide) DNone ks.
+Definition msg_out ty ks := N1 "message" (msg_out_attrs ty) DNone ks.
+
+(* <proto [mediatype]>PAYLOAD</proto>: the data is the opaque payload *)
+Definition proto_text := K1 (N1 "proto" [] DPayload KNil).
+Definition proto_media := K1 (N1 "proto" [req "mediatype"] DPayload KNil).
+(* ProtoProtocolEntity itself keeps the bytes as they are *)
+Definition schema_Proto := N1 "proto" [optf "mediatype"] DBytes KNil.
+
+(* EncryptedMessageProtocolEntity: one or more <enc>; when sending to a group's devices the
+   per-recipient ones are wrapped: <participants><to jid><enc/></to>...</participants> *)
+Definition enc_kids := one_or_more schema_Enc.
+Definition schema_EncTo := N1 "to" [req "jid"] DNone (K1 schema_Enc).
+Definition enc_fanout_kids :=
+  KCons (MList UNone) schema_Enc
+        (KCons MOne (N1 "participants" [] DNone (one_or_more schema_EncTo)) KNil).
+
+(* BroadcastTextMessage: <message to=...@broadcast><proto/><broadcast><to jid/>...</broadcast> *)
+Definition broadcast_kids :=
+  KCons MOne (N1 "proto" [] DPayload KNil)
+        (KCons MOne (N1 "broadcast" [] DNone (listof UNone (leaf "to" [req "jid"]))) KNil).
+
+(* ================================================================== retry receipts *)
+(* the <retry> child repeats the receipt id: CParent "id" *)
+Definition retry_kid count v t :=
+  KCons MOne (leaf "retry" [count; A "id" (CParent (s "id")) EAlways ShReq DAny; v; t])
+        (KCons MOne (N1 "registration" [] DBe32 KNil) KNil).
+Definition schema_RetryIncomingReceipt :=
+  N1 "receipt"
+     [req "id"; req "from"; reqdec "t"; A "offline" b10opt EIfNotNone ShOpt d01;
+      A "type" CStr EIfNotNone ShReq (DEnum [s "retry"]); opt "participant"]
+     DNone (retry_kid (int "count") (int "v") (int "t")).
+(* built through the constructor (fromProtocolTreeNode calls the non-existent setRetryData) *)
+Definition schema_RetryOutgoingReceipt :=
+  N1 "receipt" [req "id"; const "type" "retry"; optf "participant"; req "to"]
+     DNone (retry_kid (int "count") (int "v") (reqdec "t")).
+
+(* ================================================================== axolotl key iqs *)
+Definition bytes_kid (t : string) := N1 t [] DBytes KNil.
+Definition be32_kid (t : string) := N1 t [] DBe32 KNil.
+Definition server_to := const "to" "s.whatsapp.net".
+(* send-only, built through the constructor: one reason for all users *)
+Definition schema_GetKeysIq (user_attrs : list arule) :=
+  out_iq "get" "encrypt" [server_to]
+         (K1 (N1 "key" [] DNone (listof UNone (leaf "user" ([req "jid"] ++ user_attrs))))).
+Definition schema_SetKeysIq :=
+  out_iq "set" "encrypt" [server_to]
+         (KCons MOne (N1 "list" [] DNone
+                         (listof (UKid (s "id"))
+                                 (N1 "key" [] DNone
+                                     (KCons MOne (bytes_kid "id") (KCons MOne (bytes_kid "value") KNil)))))
+         (KCons MOne (bytes_kid "identity")
+         (KCons MOne (N1 "registration" [] DBytesNE KNil)
+         (KCons MOne (N1 "type" [] DByte KNil)
+         (KCons MOne (N1 "skey" [] DNone
+                         (KCons MOne (bytes_kid "id") (KCons MOne (bytes_kid "value")
+                         (KCons MOne (bytes_kid "signature") KNil)))) KNil))))).
+(* as its own serialiser and the repo fixture shape it: 4-byte big-endian ids, type 00000005 *)
+Definition schema_ResultGetKeysIq :=
+  N1 "iq" [req "id"; const "type" "result"; const "from" "s.whatsapp.net"] DNone
+     (K1 (N1 "list" [] DNone
+             (listof (UAttr (s "jid"))
+                (N1 "user" [req "jid"] DNone
+                    (KCons MOne (be32_kid "registration")
+                    (KCons MOne (N1 "type" [] (DConst [0; 0; 0; 5]) KNil)
+                    (KCons MOne (bytes_kid "identity")
+                    (KCons MOne (N1 "skey" [] DNone
+                                    (KCons MOne (be32_kid "id") (KCons MOne (bytes_kid "value")
+                                    (KCons MOne (bytes_kid "signature") KNil))))
+                    (KCons MOne (N1 "key" [] DNone
+                                    (KCons MOne (be32_kid "id") (KCons MOne (bytes_kid "value") KNil)))
+                     KNil))))))))).
+
+(* ================================================================== stream:features, privacy, auth *)
+(* children with arbitrary tags: the tag is the feature *)
+Definition schema_StreamFeatures :=
+  N1 "stream:features" [] DNone (listof UNone (SNode [] [] DNone KNil)).
+(* send-only, built through the constructor: one value for all categories *)
+Definition schema_SetPrivacyIq (v : string) :=
+  out_iq "set" "privacy" []
+         (K1 (N1 "privacy" [] DNone
+                 (one_or_more (leaf "category" [enum "name" ["status"; "profile"; "last"]; const "value" v])))).
+Definition schema_Auth :=
+  N1 "auth" [req "user"; req "mechanism";
+             A "passive" (CEqC (s "true") (s "true") (s "false")) EAlways ShReq tf] DBytes KNil.
+
 (* ================================================================== registry *)
 Definition e (n : string) (dir : N) sc := E (s n) [] dir 0 sc.
 Definition ev (n v : string) (dir kind : N) sc := E (s n) (s v) dir kind sc.
@@ -381,13 +490,62 @@ Definition registry : list entry := [
   e "GetPictureIqProtocolEntity" 1 schema_GetPictureIq;
   e "ParticipantsGroupsIqProtocolEntity" 1 schema_ParticipantsGroupsIq;
   e "ResponseProtocolEntity" 1 schema_Response;
-  e "SetPictureIqProtocolEntity" 1 schema_SetPictureIq
+  e "SetPictureIqProtocolEntity" 1 schema_SetPictureIq;
+  ev "MessageProtocolEntity" "incoming" 0 0 (msg_in ty_any KNil);
+  ev "MessageProtocolEntity" "outgoing" 1 0 (msg_out ty_any KNil);
+  ev "ProtomessageProtocolEntity" "incoming" 0 0 (msg_in ty_both proto_text);
+  ev "ProtomessageProtocolEntity" "outgoing" 1 0 (msg_out ty_both proto_text);
+  ev "TextMessageProtocolEntity" "incoming" 0 0 (msg_in ty_text proto_text);
+  ev "TextMessageProtocolEntity" "outgoing" 1 0 (msg_out ty_text proto_text);
+  ev "ExtendedTextMessageProtocolEntity" "incoming" 0 0 (msg_in ty_text proto_text);
+  ev "ExtendedTextMessageProtocolEntity" "outgoing" 1 0 (msg_out ty_text proto_text);
+  ev "BroadcastTextMessage" "outgoing" 1 0 (msg_out ty_text broadcast_kids);
+  ev "MediaMessageProtocolEntity" "incoming" 0 0 (msg_in ty_media proto_media);
+  ev "MediaMessageProtocolEntity" "outgoing" 1 0 (msg_out ty_media proto_media);
+  ev "DownloadableMediaMessageProtocolEntity" "incoming" 0 0 (msg_in ty_media proto_media);
+  ev "DownloadableMediaMessageProtocolEntity" "outgoing" 1 0 (msg_out ty_media proto_media);
+  ev "ImageDownloadableMediaMessageProtocolEntity" "incoming" 0 0 (msg_in ty_media proto_media);
+  ev "ImageDownloadableMediaMessageProtocolEntity" "outgoing" 1 0 (msg_out ty_media proto_media);
+  ev "VideoDownloadableMediaMessageProtocolEntity" "incoming" 0 0 (msg_in ty_media proto_media);
+  ev "VideoDownloadableMediaMessageProtocolEntity" "outgoing" 1 0 (msg_out ty_media proto_media);
+  ev "AudioDownloadableMediaMessageProtocolEntity" "incoming" 0 0 (msg_in ty_media proto_media);
+  ev "AudioDownloadableMediaMessageProtocolEntity" "outgoing" 1 0 (msg_out ty_media proto_media);
+  ev "DocumentDownloadableMediaMessageProtocolEntity" "incoming" 0 0 (msg_in ty_media proto_media);
+  ev "DocumentDownloadableMediaMessageProtocolEntity" "outgoing" 1 0 (msg_out ty_media proto_media);
+  ev "StickerDownloadableMediaMessageProtocolEntity" "incoming" 0 0 (msg_in ty_media proto_media);
+  ev "StickerDownloadableMediaMessageProtocolEntity" "outgoing" 1 0 (msg_out ty_media proto_media);
+  ev "LocationMediaMessageProtocolEntity" "incoming" 0 0 (msg_in ty_media proto_media);
+  ev "LocationMediaMessageProtocolEntity" "outgoing" 1 0 (msg_out ty_media proto_media);
+  ev "ContactMediaMessageProtocolEntity" "incoming" 0 0 (msg_in ty_media proto_media);
+  ev "ContactMediaMessageProtocolEntity" "outgoing" 1 0 (msg_out ty_media proto_media);
+  ev "ExtendedTextMediaMessageProtocolEntity" "incoming" 0 0 (msg_in ty_media proto_media);
+  ev "ExtendedTextMediaMessageProtocolEntity" "outgoing" 1 0 (msg_out ty_media proto_media);
+  e "ProtoProtocolEntity" 2 schema_Proto;
+  ev "EncProtocolEntity" "to-wrapped" 1 0 schema_EncTo;
+  ev "EncryptedMessageProtocolEntity" "incoming" 0 0 (msg_in ty_both enc_kids);
+  ev "EncryptedMessageProtocolEntity" "outgoing" 1 0 (msg_out ty_both enc_kids);
+  ev "EncryptedMessageProtocolEntity" "outgoing fan-out" 1 0 (msg_out ty_both enc_fanout_kids);
+  e "RetryIncomingReceiptProtocolEntity" 0 schema_RetryIncomingReceipt;
+  e "RetryOutgoingReceiptProtocolEntity" 1 schema_RetryOutgoingReceipt;
+  ev "GetKeysIqProtocolEntity" "no reason" 1 0 (schema_GetKeysIq []);
+  ev "GetKeysIqProtocolEntity" "reason=identity" 1 0 (schema_GetKeysIq [const "reason" "identity"]);
+  e "SetKeysIqProtocolEntity" 1 schema_SetKeysIq;
+  ev "ResultGetKeysIqProtocolEntity" "4-byte ids" 0 0 schema_ResultGetKeysIq;
+  e "StreamFeaturesProtocolEntity" 0 schema_StreamFeatures;
+  ev "SetPrivacyIqProtocolEntity" "value=all" 1 0 (schema_SetPrivacyIq "all");
+  ev "SetPrivacyIqProtocolEntity" "value=contacts" 1 0 (schema_SetPrivacyIq "contacts");
+  ev "SetPrivacyIqProtocolEntity" "value=none" 1 0 (schema_SetPrivacyIq "none");
+  e "AuthProtocolEntity" 1 schema_Auth
 ].
 
 (* faithful schemas of classes that lose something on their documented shape (open findings) *)
 Definition refuted : list entry := [
   ev "ErrorIqProtocolEntity" "backoff=0" 0 1 schema_ErrorIq_wide;
-  ev "RemoveGroupsNotificationProtocolEntity" "mode attribute" 0 1 schema_RemoveGroupsNotification_mode
+  ev "RemoveGroupsNotificationProtocolEntity" "mode attribute" 0 1 schema_RemoveGroupsNotification_mode;
+  ev "MessageProtocolEntity" "offline optional" 0 1 (msg_in_offline_wide ty_any KNil);
+  ev "MessageProtocolEntity" "retry=0" 0 1 (msg_in_retry_wide ty_any KNil);
+  ev "TextMessageProtocolEntity" "offline optional" 0 1 (msg_in_offline_wide ty_text proto_text);
+  ev "EncryptedMessageProtocolEntity" "offline optional" 0 1 (msg_in_offline_wide ty_both enc_kids)
 ].
 
 (* pre-fix variants, kept so that the regression is recognised if it returns *)
